@@ -51,13 +51,24 @@ def main():
     if args and args[0] == '--tier':
         tier = args[1]
         args = args[2:]
-    pid = args[0]
+    record = False
+    if args and args[0] == '--record':
+        record = True
+        args = args[1:]
+    pids = sorted(MUTANTS) if args[0] == 'all' else [args[0]]
     names = args[1:]
-    for (name, edits) in MUTANTS[pid]:
-        if names and name not in names:
-            continue
-        res, dt = run(pid, name, edits, tier)
-        print('%-4s %-34s %6.1fs  %s' % (pid, name, dt, res), flush=True)
+    import json
+    rp = os.path.join(VERIF, 'tools', 'mutants_results.json')
+    for pid in pids:
+        for (name, edits) in MUTANTS[pid]:
+            if names and name not in names:
+                continue
+            res, dt = run(pid, name, edits, tier)
+            print('%-4s %-34s %6.1fs  %s' % (pid, name, dt, res), flush=True)
+            if record:
+                allr = json.load(open(rp)) if os.path.exists(rp) else {}
+                allr.setdefault(pid, {})[name] = dict(result=res, seconds=round(dt, 1), tier=tier)
+                json.dump(allr, open(rp, 'w'), indent=1, sort_keys=True)
 
 
 if __name__ == '__main__':
